@@ -10,7 +10,7 @@ if [ ! -x "$here/build/bin/instrument" ] || [ "$here/tools/instrument/main.go" -
 fi
 args=()
 for r in "$@"; do args+=(-replace "$r"); done
-"$here/build/bin/instrument" -mode sync,globals -out "$out" -gen "$here/build/gen-c18" -rt "$here/overlay/zzverifrt.go.txt" -report "$here/build/gen-c18-sites.json" "${args[@]}"
+"$here/build/bin/instrument" -mode sync,globals,pkgvars -out "$out" -gen "$here/build/gen-c18" -rt "$here/overlay/zzverifrt.go.txt" -report "$here/build/gen-c18-sites.json" "${args[@]}"
 # add the reset shim for the lazily initialised name tables; if it no longer fits the
 # package's internals use the do-nothing fallback (the check then reports shim_unavailable)
 addshim() {
